@@ -107,6 +107,10 @@ def undersized(cfg: dict, stmts: list) -> bool:
     return np_ > p > 0 or nn > n or (nd > d > 0)
 
 
+def delimited_guess(data: bytes) -> bool:
+    return wire.is_delimited_by_construction(data)
+
+
 def read_back(data: bytes, physical: int, reader: str) -> list:
     if reader == "graph.parse-path":
         import os
@@ -124,6 +128,26 @@ def read_back(data: bytes, physical: int, reader: str) -> list:
         store = rdflib.Graph(bind_namespaces="none") if physical == 1 else rdflib.Dataset(default_union=False)
         store.parse(data=data, format="jelly")
         return T.rdflib_store_statements(store)
+    if reader in ("flat@offset", "graph.parse@offset"):
+        # the Jelly section sits behind a container header in a seekable file object positioned at its first byte
+        pre = b"\x0a\x00container" if delimited_guess(data) else b"\x00\x01container"
+        f = io.BytesIO(pre + data)
+        f.seek(len(pre))
+        if reader == "flat@offset":
+            return [e[1] for e in pj.parse("rdflib", "flat", f) if e[0] == "stmt"]
+        import os
+        import tempfile
+        fd, path = tempfile.mkstemp(suffix=".bin", prefix="rv-c02-")
+        try:
+            with os.fdopen(fd, "wb") as out:
+                out.write(pre + data)
+            store = rdflib.Graph(bind_namespaces="none") if physical == 1 else rdflib.Dataset(default_union=False)
+            with open(path, "rb") as fh:           # a real file (rdflib wants a .name), positioned behind the header
+                fh.seek(len(pre))
+                store.parse(file=fh, format="jelly")
+            return T.rdflib_store_statements(store)
+        finally:
+            os.unlink(path)
     if reader == "flat":
         return [e[1] for e in pj.parse("rdflib", "flat", data) if e[0] == "stmt"]
     if reader == "grouped":
@@ -179,7 +203,7 @@ def roundtrip(cfg: dict, stmts: list, normalize: bool = True, other: bytes | Non
                 return {"clause": "refused-undersized", "summary": "refused"}, None     # not a violation (see run_shard)
             return {"clause": "serializer-raised", "summary": f"{type(e).__name__}: {e}"}, None
         want = {T.norm_stmt(s) for s in stmts}
-        for reader in ("graph.parse", "graph.parse-path", "flat", "grouped", "to_graph"):
+        for reader in ("graph.parse", "graph.parse-path", "flat", "grouped", "to_graph", "flat@offset", "graph.parse@offset"):
             try:
                 got = {T.norm_stmt(s) for s in read_back(data, cfg["physical"], reader)}
             except Exception as e:  # noqa: BLE001
